@@ -476,12 +476,16 @@ func allStacks() []gstate {
 	return res
 }
 
-func isWaiting(status string) bool {
+// isParked: the goroutine is parked in an operation that only another goroutine's step (or the
+// network) can complete.  Whitelist: anything else (running, runnable, syscall, GC waits,
+// sleep, scan states ...) means "still moving".
+func isParked(status string) bool {
 	switch status {
-	case "running", "runnable", "syscall", "idle", "dead", "copystack", "preempted":
-		return false
+	case "chan receive", "chan send", "select", "semacquire", "IO wait",
+		"sync.WaitGroup.Wait", "sync.Cond.Wait", "chan receive (nil chan)", "chan send (nil chan)", "select (no cases)":
+		return true
 	}
-	return true
+	return false
 }
 
 // quiet reports whether every goroutine that touches the connection is at a gate or
@@ -499,8 +503,11 @@ func (sim *Sim) quiet() (bool, string) {
 		if th != nil && (th.atGate || th.finished) {
 			continue
 		}
-		if !isWaiting(g.status) {
+		if !isParked(g.status) {
 			return false, fmt.Sprintf("g%d %s", g.gid, g.status)
+		}
+		if strings.Contains(g.text, "connsim.(*Sim).point") || strings.Contains(g.text, "connsim.(*Sim).register") {
+			return false, fmt.Sprintf("g%d inside the hook", g.gid) // about to arrive at its gate
 		}
 		if g.status == "IO wait" {
 			if strings.Contains(g.text, "(*TcpConn).readPump") {
@@ -510,9 +517,6 @@ func (sim *Sim) quiet() (bool, string) {
 				continue
 			}
 			return false, fmt.Sprintf("g%d in network wait", g.gid)
-		}
-		if g.status == "sleep" {
-			return false, "sleeping"
 		}
 	}
 	return true, ""
